@@ -371,7 +371,7 @@ int create_array_op(World &w, const Op &op) {
     for (auto &e : ext) e = r.chance(1, 10) ? 0 : (uint64_t) r.range(1, hi);
     static const Compression comps[] = {Compression::Auto, Compression::None, Compression::DeflateNormal};
     Compression comp = comps[((unsigned) a[4]) % 3];
-    std::string name = op.s;
+    std::string name = w.resolve_name(op.s, "/data/" + b.name() + "/data_arrays");
     if (a[1] == -7 && b.dataArrayCount()) name = b.getDataArray((ndsize_t) 0).id();
     bool dup = b.hasDataArray(name);
     bool badname = name.empty() || name.find('/') != std::string::npos;
